@@ -19,6 +19,56 @@ theorem Dom.congr {w w' : World V} (h : SameStruct w w') (hd : Dom w) : Dom w' :
   · rw [h.glyphs]; exact a4
   · rw [h.glyphs]; exact a5
 
+/-- the watching hypothesis of `cascade_complete`, from the domain predicates -/
+theorem watch_of_dom {gs : Layer} {h : String} (hw : WatchOK gs) (hh : AL.contains gs h = true) :
+    ∀ m x, ReadsN gs m x h → ∀ x' gx k, AL.get? gs x' = some gx → k ∈ gx.comps →
+      k.base = some x → k.watch = Watch.base := by
+  intro m x hx x' gx k hgx hk hb
+  apply hw x' gx k x hgx hk hb
+  cases hx with
+  | refl => exact hh
+  | step g1 k1 hg1 _ _ _ => simp [AL.contains, hg1]
+
+/-- a component whose base reads `h` loses its built-in representations when `h` posts `ns` -/
+theorem cascade_hits_comp (T : Tables) (hcov : Coverage T = true) (gs : Layer) (fuel : Nat) (h : String)
+    (ns : List String) (hb : Bounded gs fuel) (hw : WatchOK gs) (hh : AL.contains gs h = true)
+    (hrel : relays ns = true) {x' : String} {gx : GlyphS} {k : CompS} {c : String} {m : Nat}
+    (hgx : AL.get? gs x' = some gx) (hk : k ∈ gx.comps) (hbase : k.base = some c) (hrd : ReadsN gs m c h)
+    {nm : String} (hbi : isBuiltin T "Component" nm = true) :
+    ∃ d y, (nm, d) ∈ T.factoriesOf "Component" ∧ (Obj.comp k.id, y) ∈ glyphDeliv fuel T gs h ns ∧
+      d.hit y = true := by
+  have hbg := cov_glyphOutline hcov (m := "_componentBaseGlyphDataChanged") (by simp [glyphOutlineMethods])
+  have hcb := cov_compCallback hcov (cb := "baseGlyphDataChangedNotificationCallback") (by simp [compCallbacks])
+  have hdel := (cascade_complete T gs fuel h ns hbg.2 hcb.2 hb (watch_of_dom hw hh) hrel
+    m c hrd x' gx k hgx hk hbase).1
+  unfold isBuiltin at hbi
+  rw [List.any_eq_true] at hbi
+  obtain ⟨p, hp, hpn⟩ := hbi
+  simp only [decide_eq_true_eq] at hpn
+  have := List.all_eq_true.mp hcb.1 p hp
+  rw [List.any_eq_true] at this
+  obtain ⟨y, hy, hhit⟩ := this
+  exact ⟨p.2, y, by rw [← hpn]; exact hp, hdel y hy, hhit⟩
+
+/-- the glyph that holds such a component loses every representation -/
+theorem cascade_hits_glyph (T : Tables) (hcov : Coverage T = true) (gs : Layer) (fuel : Nat) (h : String)
+    (ns : List String) (hb : Bounded gs fuel) (hw : WatchOK gs) (hh : AL.contains gs h = true)
+    (hrel : relays ns = true) {x' : String} {gx : GlyphS} {k : CompS} {c : String} {m : Nat}
+    (hgx : AL.get? gs x' = some gx) (hk : k ∈ gx.comps) (hbase : k.base = some c) (hrd : ReadsN gs m c h)
+    {regs : List (String × String × Destr)} (hreg : ∀ r, r ∈ regs → r.2.2 = T.defaultDestr r.1) {nm : String}
+    (hnm : (facsOf T regs "Glyph").any (fun p => p.1 = nm) = true) :
+    ∃ d y, (nm, d) ∈ facsOf T regs "Glyph" ∧ (Obj.glyph x', y) ∈ glyphDeliv fuel T gs h ns ∧ d.hit y = true := by
+  have hbg := cov_glyphOutline hcov (m := "_componentBaseGlyphDataChanged") (by simp [glyphOutlineMethods])
+  have hcb := cov_compCallback hcov (cb := "baseGlyphDataChangedNotificationCallback") (by simp [compCallbacks])
+  obtain ⟨d, y, hd, hy, hhit⟩ := hits_of_hitsAll hreg hbg.1 hnm
+  exact ⟨d, y, hd, cascade_glyph T gs fuel h ns hbg.2 hcb.2 hb (watch_of_dom hw hh) hrel hrd hgx hk hbase hy, hhit⟩
+
+theorem findComp_id {w : World V} {kid : Nat} {k : CompS} (h : findComp w kid = some k) : k.id = kid := by
+  unfold findComp at h
+  cases hh : hostOfComp w.glyphs kid with
+  | none => rw [hh] at h; simpa using List.find?_some h
+  | some q => rw [hh] at h; simpa [compIn] using List.find?_some h
+
 /-- One glyph record `h` is replaced (`g ↦ g'`), the glyph posts `ns`, everything delivered is in
 `ds`.  The operation supplies what happens to glyph `h` itself, to contours, and to the components it
 touches; every other glyph and component is handled here: either its view does not read `h`, or the
@@ -32,42 +82,38 @@ theorem inv_glyph_local (P : Params V) (T : Tables) (hcov : Coverage T = true) (
     (hdom : Dom w1)
     (hD : ∀ y, y ∈ glyphDeliv w1.fuel T w1.glyphs h ns → y ∈ ds)
     (hrel : relays ns = true ∨ (g'.contours = g.contours ∧ g'.comps = g.comps))
-    (hsub : ∀ o nm sk v, (cacheOf w1 o).get? nm sk = some v → (cacheOf w o).get? nm sk = some v)
+    (hsub : ∀ o nm sk v, (∀ cid, o ≠ .contour cid) → (cacheOf w1 o).get? nm sk = some v →
+      (cacheOf w o).get? nm sk = some v)
+    (hcreg : CachedRegistered T w1)
     (hloose : LooseEmpty w1)
     (hglyph : ∀ nm sk v, (cacheOf (applyDeliv T w1 ds) (.glyph h)).get? nm sk = some v →
       viewOf T w1 (.glyph h) nm = viewOf T w (.glyph h) nm)
     (hcont : ∀ cid nm sk v, (cacheOf (applyDeliv T w1 ds) (.contour cid)).get? nm sk = some v →
-      viewOf T w1 (.contour cid) nm = viewOf T w (.contour cid) nm)
+      v = P.f "Contour" nm (viewOf T w1 (.contour cid) nm) sk)
     (hcomp : ∀ kid, findComp w1 kid = findComp w kid ∨
       ∀ nm sk v, (cacheOf (applyDeliv T w1 ds) (.comp kid)).get? nm sk = some v →
         viewOf T w1 (.comp kid) nm = viewOf T w (.comp kid) nm) :
     Inv P T (applyDeliv T w1 ds) := by
   have hss := sameStruct_applyDeliv T w1 ds
-  have hbg := cov_glyphOutline hcov (m := "_componentBaseGlyphDataChanged") (by simp [glyphOutlineMethods])
-  have hcb := cov_compCallback hcov (cb := "baseGlyphDataChangedNotificationCallback") (by simp [compCallbacks])
-  have hW : ∀ m x, ReadsN w1.glyphs m x h → ∀ x' gx k, AL.get? w1.glyphs x' = some gx → k ∈ gx.comps →
-      k.base = some x → k.watch = Watch.base := by
-    intro m x hx x' gx k hgx hk hb
-    apply hdom.watch x' gx k x hgx hk hb
-    -- x is present: it is h (m = 0) or it has components
-    cases hx with
-    | refl => rw [hgs]; simp [AL.contains]
-    | step g1 k1 hg1 _ _ _ => simp [AL.contains, hg1]
+  have hh : AL.contains w1.glyphs h = true := by rw [hgs]; simp [AL.contains]
   refine ⟨?_, ?_, ?_, ?_⟩
   · -- coherence
     intro o nm sk v hs
     have h1 := (get?_applyDeliv T w1 ds o nm sk v hs).1
-    have h0 := hsub _ _ _ _ h1
-    have hv := hinv.coh _ _ _ _ h0
-    rw [hv]
     unfold fresh
     rw [viewOf_congr T hss]
-    congr 1
-    symm
     cases o with
-    | groups => simp [viewOf, hgv]
     | contour cid => exact hcont cid nm sk v hs
+    | groups =>
+      have h0 := hsub _ _ _ _ (by intro cid e; cases e) h1
+      rw [hinv.coh _ _ _ _ h0]
+      simp [fresh, viewOf, hgv]
     | glyph x =>
+      have h0 := hsub _ _ _ _ (by intro cid e; cases e) h1
+      rw [hinv.coh _ _ _ _ h0]
+      unfold fresh
+      congr 1
+      symm
       by_cases e : h = x
       · subst e; exact hglyph nm sk v hs
       · by_cases hex : ∃ gx k c m, AL.get? w1.glyphs x = some gx ∧ k ∈ gx.comps ∧ k.base = some c ∧
@@ -75,14 +121,18 @@ theorem inv_glyph_local (P : Params V) (T : Tables) (hcov : Coverage T = true) (
         · rcases hrel with hrel | hrel
           · exfalso
             obtain ⟨gx, k, c, m, hgx, hk, hb, hrd⟩ := hex
-            have hreg := hinv.creg _ _ _ _ h0
-            obtain ⟨d, y, hd, hy, hh⟩ := hits_of_hitsAll (regs := w.regs) hinv.rdef hbg.1 hreg
-            have hdel := cascade_glyph T w1.glyphs w1.fuel h ns hbg.2 hcb.2 hdom.bounded hW hrel hrd hgx hk hb hy
-            exact not_survivor hs (by rw [hr]; exact hd) (hD _ hdel) hh
+            obtain ⟨d, y, hd, hy, hhit⟩ := cascade_hits_glyph T hcov w1.glyphs w1.fuel h ns hdom.bounded hdom.watch
+              hh hrel hgx hk hb hrd (regs := w.regs) hinv.rdef (hinv.creg _ _ _ _ h0)
+            exact not_survivor hs (by rw [hr]; exact hd) (hD _ hy) hhit
           · exact view_glyph_other T w w1 h g g' hg hgs hf x e nm (Or.inl hrel)
         · exact view_glyph_other T w w1 h g g' hg hgs hf x e nm
             (Or.inr (fun gx k c m a1 a2 a3 a4 => hex ⟨gx, k, c, m, a1, a2, a3, a4⟩))
     | comp kid =>
+      have h0 := hsub _ _ _ _ (by intro cid e; cases e) h1
+      rw [hinv.coh _ _ _ _ h0]
+      unfold fresh
+      congr 1
+      symm
       rcases hcomp kid with hsame | hother
       · cases hk : findComp w kid with
         | none => simp [viewOf, hsame, hk]
@@ -101,30 +151,10 @@ theorem inv_glyph_local (P : Params V) (T : Tables) (hcov : Coverage T = true) (
                     have := hloose (.comp kid) hc nm sk
                     rw [this] at h1; cases h1
                 obtain ⟨x', gx', hgx', hkm⟩ := findComp_attached w1 hdom.ids.keys kid k hatt hk1
-                have hdel := (cascade_complete T w1.glyphs w1.fuel h ns hbg.2 hcb.2 hdom.bounded hW hrel
-                  m c hrd x' gx' k hgx' hkm hb).1
-                -- the built-in factory registered under nm
-                unfold isBuiltin at hbi
-                rw [List.any_eq_true] at hbi
-                obtain ⟨p, hp, hpn⟩ := hbi
-                simp only [decide_eq_true_eq] at hpn
-                have := List.all_eq_true.mp hcb.1 p hp
-                rw [List.any_eq_true] at this
-                obtain ⟨y, hy, hh⟩ := this
-                have hkid : k.id = kid := by
-                  unfold findComp at hk1
-                  cases hh' : hostOfComp w1.glyphs kid with
-                  | none =>
-                    rw [hh'] at hk1
-                    have := List.find?_some hk1
-                    simpa using this
-                  | some q =>
-                    rw [hh'] at hk1
-                    have := List.find?_some hk1
-                    simpa using this
-                have hmem : (nm, p.2) ∈ facsOf T w1.regs "Component" := by
-                  rw [← hpn]; exact mem_facsOf_builtin hp
-                exact not_survivor hs hmem (hD _ (by rw [← hkid]; exact hdel y hy)) hh
+                obtain ⟨d, y, hd, hy, hhit⟩ := cascade_hits_comp T hcov w1.glyphs w1.fuel h ns hdom.bounded
+                  hdom.watch hh hrel hgx' hkm hb hrd hbi
+                rw [findComp_id hk1] at hy
+                exact not_survivor hs (mem_facsOf_builtin hd) (hD _ hy) hhit
               · -- a default-registered factory reads only the component's own record
                 unfold viewOf
                 simp only [hk1, hk, Option.map_some, Option.getD_some]
@@ -145,11 +175,18 @@ theorem inv_glyph_local (P : Params V) (T : Tables) (hcov : Coverage T = true) (
       cases this
   · intro o nm sk v hs
     have h1 := (get?_applyDeliv T w1 ds o nm sk v hs).1
-    rw [hss.regs, hr]
-    exact hinv.creg _ _ _ _ (hsub _ _ _ _ h1)
+    rw [hss.regs]
+    exact hcreg _ _ _ _ h1
   · intro r hr'
     rw [hss.regs, hr] at hr'
     exact hinv.rdef r hr'
+
+/-- contours: an entry that was cached before and whose view is unchanged stays right -/
+theorem cont_of_view (P : Params V) (T : Tables) {w w1 : World V} (hinv : Inv P T w) {cid : Nat} {nm : String}
+    {sk : SubKey} {v : V} (h0 : (cacheOf w (.contour cid)).get? nm sk = some v)
+    (hv : viewOf T w1 (.contour cid) nm = viewOf T w (.contour cid) nm) :
+    v = P.f "Contour" nm (viewOf T w1 (.contour cid) nm) sk := by
+  rw [hv]; exact hinv.coh _ _ _ _ h0
 
 theorem fuel_pos {gs : Layer} {fuel : Nat} (hb : Bounded gs fuel) : ∃ j, fuel = j + 1 :=
   ⟨fuel - 1, by have := hb 0 "" "" (ReadsN.refl ""); omega⟩
@@ -162,6 +199,201 @@ theorem glyphDeliv_self' {fuel : Nat} {T : Tables} {gs : Layer} {a : String} {ns
 
 theorem cacheOf_eq_of_caches {w w1 : World V} (h : w1.caches = w.caches) (o : Obj) : cacheOf w1 o = cacheOf w o := by
   unfold cacheOf; rw [h]
+
+/-- the glyph that posted a list which `hitsAll` keeps no entry -/
+theorem glyph_self_dead (T : Tables) {w w1 : World V} (hrdef : RegsDefault T w) (hr : w1.regs = w.regs)
+    {h : String} {ns : List String} {ds : List (Obj × String)} (hall : hitsAll T "Glyph" ns = true)
+    (hb : Bounded w1.glyphs w1.fuel) (hD : ∀ y, y ∈ glyphDeliv w1.fuel T w1.glyphs h ns → y ∈ ds)
+    (hcreg : CachedRegistered T w1) {nm : String} {sk : SubKey} {v : V}
+    (hs : (cacheOf (applyDeliv T w1 ds) (.glyph h)).get? nm sk = some v) : False := by
+  have h1 := (get?_applyDeliv T w1 ds _ nm sk v hs).1
+  have hreg := hcreg _ _ _ _ h1
+  obtain ⟨d, y, hd, hy, hh⟩ := hits_of_hitsAll (regs := w1.regs) (by rw [hr]; exact hrdef) hall hreg
+  exact not_survivor hs hd (hD _ (glyphDeliv_self' hb hy)) hh
+
+/-- no entry at all: nothing to check -/
+theorem no_entry_of_loose {w : World V} (hl : LooseEmpty w) {o : Obj} (ha : attached w o = false)
+    {w1 : World V} (hc : w1.caches = w.caches) {T : Tables} {ds : List (Obj × String)} {nm : String} {sk : SubKey}
+    {v : V} (hs : (cacheOf (applyDeliv T w1 ds) o).get? nm sk = some v) : False := by
+  have h1 := (get?_applyDeliv T w1 ds _ nm sk v hs).1
+  rw [cacheOf_eq_of_caches hc, hl o ha nm sk] at h1
+  cases h1
+
+theorem hasContour_insertAt (r : GlyphS) (idx : Nat) (c : ContourS) (cid : Nat) (hne : c.id ≠ cid) :
+    hasContour cid { r with contours := insertAt r.contours idx c } = hasContour cid r := by
+  unfold hasContour
+  exact any_insertAt _ _ _ _ (by simpa using hne)
+
+theorem contourIn_insertAt (r : GlyphS) (idx : Nat) (c : ContourS) (cid : Nat) (hne : c.id ≠ cid) :
+    contourIn { r with contours := insertAt r.contours idx c } cid = contourIn r cid := by
+  unfold contourIn
+  exact find?_insertAt _ _ _ _ (by simpa using hne)
+
+/-- `insertContour` of a loose contour -/
+theorem inv_insContour (P : Params V) (T : Tables) (hcov : Coverage T = true) (w : World V) (g : String)
+    (cid idx : Nat) (hinv : Inv P T w) (hdom : Dom w) (hdom' : Dom (doInsContour T w g cid idx).1) :
+    Inv P T (doInsContour T w g cid idx).1 := by
+  unfold doInsContour at hdom' ⊢
+  cases hr : AL.get? w.glyphs g with
+  | none => simpa [hr] using hinv
+  | some r =>
+    cases hc : w.looseC.find? (fun c => c.id = cid) with
+    | none => simpa [hr, hc] using hinv
+    | some c =>
+      simp only [hr, hc] at hdom' ⊢
+      unfold glyphChange at hdom' ⊢
+      have hcid : c.id = cid := by simpa using List.find?_some hc
+      have hcm : c ∈ w.looseC := List.mem_of_find?_eq_some hc
+      have hnatt : attached w (.contour cid) = false := by
+        have := hdom.ids.looseC c hcm
+        rw [hcid] at this
+        simpa [attached] using this
+      generalize hw1 : ({ ({ w with looseC := w.looseC.filter (fun c => c.id != cid) } : World V) with
+          glyphs := updGlyph w.glyphs g fun r => { r with contours := insertAt r.contours idx c } } : World V) = w1
+          at hdom' ⊢
+      have hgs : w1.glyphs = AL.set w.glyphs g { r with contours := insertAt r.contours idx c } := by
+        rw [← hw1]; exact updGlyph_eq_set _ hr
+      have hf : w1.fuel = w.fuel := by rw [← hw1]
+      have hrg : w1.regs = w.regs := by rw [← hw1]
+      have hgv : w1.groupsVer = w.groupsVer := by rw [← hw1]
+      have hca : w1.caches = w.caches := by rw [← hw1]
+      have hlc : w1.looseC = w.looseC.filter (fun c => c.id != cid) := by rw [← hw1]
+      have hlk : w1.looseK = w.looseK := by rw [← hw1]
+      have hd1 := Dom.congr (sameStruct_applyDeliv T _ _).symm hdom'
+      have hcg := cov_glyphOutline hcov (m := "insertContour") (by simp [glyphOutlineMethods])
+      have hcreg1 : CachedRegistered T w1 := by
+        intro o nm sk v hv
+        rw [cacheOf_eq_of_caches hca] at hv
+        rw [hrg]; exact hinv.creg _ _ _ _ hv
+      refine inv_glyph_local P T hcov w w1 g r _ (T.postsOf "Glyph" "insertContour") _ hinv hr hgs hf hrg hgv
+        hd1 (fun y hy => hy) (Or.inl hcg.2) (fun o nm sk v _ hv => by rw [cacheOf_eq_of_caches hca] at hv; exact hv)
+        hcreg1 ?_ ?_ ?_ ?_
+      · -- loose
+        intro o ha
+        rw [cacheOf_eq_of_caches hca]
+        by_cases e : o = .contour cid
+        · subst e; exact hinv.loose _ hnatt
+        · have : attached w o = false := by
+            rw [← ha]; symm
+            cases o with
+            | contour cid' =>
+              have hne : c.id ≠ cid' := by rw [hcid]; intro e'; exact e (by rw [e'])
+              exact attached_contour_set w w1 g r _ hdom.ids.keys hr hgs cid' (hasContour_insertAt r idx c cid' hne)
+            | comp kid => exact attached_comp_set w w1 g r _ hdom.ids.keys hr hgs kid rfl
+            | glyph x => exact attached_glyph_set w w1 g r _ hr hgs x
+            | groups => rfl
+          exact hinv.loose o this
+      · intro nm sk v hs
+        exact (glyph_self_dead T hinv.rdef hrg hcg.1 hd1.bounded (fun y hy => hy) hcreg1 hs).elim
+      · intro cid' nm sk v hs
+        by_cases e : cid' = cid
+        · subst e
+          exact (no_entry_of_loose hinv.loose hnatt hca hs).elim
+        · have hne : c.id ≠ cid' := by rw [hcid]; exact fun e' => e e'.symm
+          have h1 := (get?_applyDeliv T _ _ _ nm sk v hs).1
+          rw [cacheOf_eq_of_caches hca] at h1
+          refine cont_of_view P T hinv h1
+            (viewOf_contour_of_find T (findContour_set w w1 g r _ hdom.ids.keys hr hgs cid' ?_
+              (hasContour_insertAt r idx c cid' hne) (contourIn_insertAt r idx c cid' hne)) nm)
+          rw [hlc]
+          exact find?_filter_of_imp _ _ _ (by
+            intro x hx
+            simp only [decide_eq_true_eq] at hx
+            simp only [bne_iff_ne, ne_eq]
+            rw [hx]; exact e)
+      · intro kid
+        exact Or.inl (findComp_set w w1 g r _ hdom.ids.keys hr hgs kid (by rw [hlk]) rfl rfl)
+
+theorem ne_imp_bne {cid cid' : Nat} (e : cid' ≠ cid) (x : ContourS) (hx : decide (x.id = cid') = true) :
+    (x.id != cid) = true := by
+  simp only [decide_eq_true_eq] at hx
+  simp only [bne_iff_ne, ne_eq]
+  rw [hx]; exact e
+
+theorem ne_imp_bneK {kid kid' : Nat} (e : kid' ≠ kid) (x : CompS) (hx : decide (x.id = kid') = true) :
+    (x.id != kid) = true := by
+  simp only [decide_eq_true_eq] at hx
+  simp only [bne_iff_ne, ne_eq]
+  rw [hx]; exact e
+
+/-- `removeContour` -/
+theorem inv_remContour (P : Params V) (T : Tables) (hcov : Coverage T = true) (w : World V) (g : String)
+    (cid : Nat) (hinv : Inv P T w) (hdom : Dom w) (hdom' : Dom (doRemContour T w g cid).1) :
+    Inv P T (doRemContour T w g cid).1 := by
+  unfold doRemContour at hdom' ⊢
+  cases hr : AL.get? w.glyphs g with
+  | none => simpa [hr] using hinv
+  | some r =>
+    cases hc : contourIn r cid with
+    | none => simpa [hr, hc] using hinv
+    | some c =>
+      simp only [hr, hc] at hdom' ⊢
+      unfold glyphChange at hdom' ⊢
+      have hcid : c.id = cid := by simpa [contourIn] using List.find?_some hc
+      generalize hw1 : ({ (dropCache ({ w with looseC := w.looseC ++ [c] } : World V) (.contour cid)) with
+          glyphs := updGlyph (dropCache ({ w with looseC := w.looseC ++ [c] } : World V) (.contour cid)).glyphs g
+            fun r => { r with contours := r.contours.filter fun c => c.id != cid } } : World V) = w1
+          at hdom' ⊢
+      have hgs : w1.glyphs = AL.set w.glyphs g { r with contours := r.contours.filter fun c => c.id != cid } := by
+        rw [← hw1]; exact updGlyph_eq_set _ hr
+      have hf : w1.fuel = w.fuel := by rw [← hw1]; rfl
+      have hrg : w1.regs = w.regs := by rw [← hw1]; rfl
+      have hgv : w1.groupsVer = w.groupsVer := by rw [← hw1]; rfl
+      have hca : ∀ o, cacheOf w1 o = if Obj.contour cid = o then [] else cacheOf w o := by
+        intro o; rw [← hw1]; exact cacheOf_dropCache _ _ o
+      have hlc : w1.looseC = w.looseC ++ [c] := by rw [← hw1]; rfl
+      have hlk : w1.looseK = w.looseK := by rw [← hw1]; rfl
+      have hsub : ∀ o nm sk v, (cacheOf w1 o).get? nm sk = some v → (cacheOf w o).get? nm sk = some v := by
+        intro o nm sk v hv
+        rw [hca] at hv
+        by_cases e : Obj.contour cid = o
+        · simp [e, Cache.get?] at hv
+        · simpa [e] using hv
+      have hd1 := Dom.congr (sameStruct_applyDeliv T _ _).symm hdom'
+      have hcg := cov_glyphOutline hcov (m := "removeContour") (by simp [glyphOutlineMethods])
+      have hcreg1 : CachedRegistered T w1 := by
+        intro o nm sk v hv
+        rw [hrg]; exact hinv.creg _ _ _ _ (hsub _ _ _ _ hv)
+      have hgone : ∀ nm sk, (cacheOf w1 (.contour cid)).get? nm sk = none := by
+        intro nm sk; rw [hca]; simp [Cache.get?]
+      refine inv_glyph_local P T hcov w w1 g r _ (T.postsOf "Glyph" "removeContour") _ hinv hr hgs hf hrg hgv
+        hd1 (fun y hy => hy) (Or.inl hcg.2) (fun o nm sk v _ hv => hsub o nm sk v hv)
+        hcreg1 ?_ ?_ ?_ ?_
+      · -- loose
+        intro o ha nm sk
+        by_cases e : o = .contour cid
+        · subst e; exact hgone nm sk
+        · have : attached w o = false := by
+            rw [← ha]; symm
+            cases o with
+            | contour cid' =>
+              have hne : cid' ≠ cid := by intro e'; exact e (by rw [e'])
+              exact attached_contour_set w w1 g r _ hdom.ids.keys hr hgs cid'
+                (any_filter_of_imp _ _ _ (ne_imp_bne hne))
+            | comp kid => exact attached_comp_set w w1 g r _ hdom.ids.keys hr hgs kid rfl
+            | glyph x => exact attached_glyph_set w w1 g r _ hr hgs x
+            | groups => rfl
+          cases hv : (cacheOf w1 o).get? nm sk with
+          | none => rfl
+          | some v =>
+            have h2 := hsub _ _ _ _ hv
+            rw [hinv.loose o this nm sk] at h2
+            cases h2
+      · intro nm sk v hs
+        exact (glyph_self_dead T hinv.rdef hrg hcg.1 hd1.bounded (fun y hy => hy) hcreg1 hs).elim
+      · intro cid' nm sk v hs
+        have h1 := (get?_applyDeliv T _ _ _ nm sk v hs).1
+        by_cases e : cid' = cid
+        · subst e
+          rw [hgone] at h1; cases h1
+        · have hne : c.id ≠ cid' := by rw [hcid]; exact fun e' => e e'.symm
+          refine cont_of_view P T hinv (hsub _ _ _ _ h1)
+            (viewOf_contour_of_find T (findContour_set w w1 g r _ hdom.ids.keys hr hgs cid' ?_
+              (any_filter_of_imp _ _ _ (ne_imp_bne e)) (find?_filter_of_imp _ _ _ (ne_imp_bne e))) nm)
+          rw [hlc]
+          exact find?_append_single _ _ _ (by simpa using hne)
+      · intro kid
+        exact Or.inl (findComp_set w w1 g r _ hdom.ids.keys hr hgs kid (by rw [hlk]) rfl rfl)
 
 /-- an attribute mutator of a glyph (`gmut`) -/
 theorem inv_gmut (P : Params V) (T : Tables) (hcov : Coverage T = true) (w : World V) (g meth : String)
@@ -180,7 +412,7 @@ theorem inv_gmut (P : Params V) (T : Tables) (hcov : Coverage T = true) (w : Wor
           cov_mem hcov (by simp [covList])
         exact List.all_eq_true.mp h1 meth (by simpa using hm)
       refine inv_glyph_local P T hcov w _ g r { r with attr := w.clock } (T.postsOf "Glyph" meth) _ hinv hr hgs rfl rfl rfl
-        hd1 (fun y hy => hy) (Or.inr ⟨rfl, rfl⟩) (fun o nm sk v hv => hv) ?_ ?_ ?_ ?_
+        hd1 (fun y hy => hy) (Or.inr ⟨rfl, rfl⟩) (fun o nm sk v _ hv => hv) hinv.creg ?_ ?_ ?_ ?_
       · -- loose
         intro o ha
         have : attached w o = false := by
@@ -201,10 +433,11 @@ theorem inv_gmut (P : Params V) (T : Tables) (hcov : Coverage T = true) (w : Wor
           obtain ⟨d, y, hd, hy, hh⟩ := hits_of_hitsReg (regs := w.regs) hinv.rdef hposts hreg (by simpa using hbi)
           exact not_survivor hs hd (glyphDeliv_self' hd1.bounded hy) hh
       · -- contours
-        intro cid nm sk v _
-        exact viewOf_contour_of_find T (findContour_set w _ g r _ hdom.ids.keys hr hgs rfl cid rfl rfl) nm
+        intro cid nm sk v hs
+        exact cont_of_view P T hinv (get?_applyDeliv T _ _ _ nm sk v hs).1
+          (viewOf_contour_of_find T (findContour_set w _ g r _ hdom.ids.keys hr hgs cid rfl rfl rfl) nm)
       · intro kid
-        exact Or.inl (findComp_set w _ g r _ hdom.ids.keys hr hgs rfl kid rfl rfl)
+        exact Or.inl (findComp_set w _ g r _ hdom.ids.keys hr hgs kid rfl rfl rfl)
     · simp only [hm, hc, Bool.not_true, Bool.false_eq_true, if_false, Bool.not_false, if_true]
       simpa using hinv
   · simp only [hm, Bool.not_false, if_true]
